@@ -39,7 +39,7 @@ IO = 'chainables.io'
 
 
 def run(ctx: Ctx):
-  for r in (r1, r2, r3, r4, r6, r8, r9, r10, r11, r12, r14, r15, r16):
+  for r in (r1, r2, r3, r4, r6, r8, r9, r10, r11, r12, r14, r15, r16, r17):
     ctx.guard(r)
   from mlmverif.props import c03
   ctx.include('R-C10-13', '"the captured state": MultiplexIterator.state reads the positions of `_source_iterators` — the'
@@ -957,12 +957,66 @@ def r16(ctx: Ctx):
   ctx.floor(rule, 1)
 
 
+def r17(ctx: Ctx):
+  rule = 'R-C10-17'
+  ctx.rule(rule, '"restoring ... from a captured state continues with exactly the elements not yet delivered": the state handed to'
+           ' `<source>.from_state(...)` by the pipeline code (transform.py) is the RECORDED state as it was passed in — a'
+           ' parameter of the calling function (or an attribute path of it) that the function never re-binds. A state'
+           ' rewritten on the way (dataclasses.replace(state, parent=<the live source\'s state>), a rebuilt ShardConfig) is'
+           ' no longer what was captured: a nested shard loses its recorded parent chain and the restored run reads'
+           ' another range')
+  mi = ctx.repo.module('chainables.transform')
+  fns = list(mi.functions.values()) + [m_ for c in mi.classes.values() for m_ in c.methods.values()]
+  n = 0
+  for fi in fns:
+    ps = set(fi.params())
+    for c in walk_no_nested(fi.node):
+      if not (isinstance(c, ast.Call) and isinstance(c.func, ast.Attribute) and c.func.attr == 'from_state' and c.args):
+        continue
+      n += 1
+      a = c.args[0]
+      root = a
+      while isinstance(root, (ast.Attribute, ast.Subscript)):
+        root = root.value
+      what = f'{fi.qualname}: `{unparse(c.func)}` receives the recorded state unchanged'
+      if not (isinstance(root, ast.Name) and root.id in ps):
+        ctx.fail(rule, fi, what,
+                 f'`{unparse(c)[:80]}` restores from `{unparse(a)[:50]}`, which is not (an attribute of) a parameter of'
+                 f' {fi.qualname}: the state is built on the way instead of being replayed as recorded', node=c)
+        continue
+      rebinds = [x for x in walk_no_nested(fi.node)
+                 if (isinstance(x, ast.Assign) and any(isinstance(y, ast.Name) and y.id == root.id for t in x.targets for y in ast.walk(t)))
+                 or (isinstance(x, (ast.AugAssign, ast.AnnAssign)) and isinstance(x.target, ast.Name) and x.target.id == root.id)
+                 or (isinstance(x, ast.NamedExpr) and x.target.id == root.id)]
+      # a re-binding that only WRAPS the recorded state (`state = {name: state}`) keeps it; one that passes it through a
+      # call (dataclasses.replace(state, ...), ShardConfig(**vars(state))) rewrites it
+      rebinds = [x for x in rebinds if any(
+          isinstance(k, ast.Call) and any(isinstance(y, ast.Name) and y.id == root.id
+                                          for arg in [*k.args, *[kw.value for kw in k.keywords]] for y in ast.walk(arg))
+          for k in ast.walk(getattr(x, 'value', x)))
+                 or not any(isinstance(y, ast.Name) and y.id == root.id for y in ast.walk(getattr(x, 'value', x)))]
+      if rebinds:
+        ctx.fail(rule, fi, what,
+                 f'`{unparse(rebinds[0])[:80]}` re-binds `{root.id}` before `{unparse(c)[:50]}`: the source is restored from a'
+                 ' rewritten state, not from the captured one — the recorded parent chain / offsets of the shard are replaced',
+                 node=rebinds[0])
+      else:
+        ctx.ok(rule, fi, what, c)
+  ctx.floor(rule, 2, n)
+
+
 from mlmverif.selfcheck import B, OK  # noqa: E402
 
 _F = 'chainables/io.py'
 _T = 'chainables/transform.py'
 _U = 'utils/iter_utils.py'
 VARIANTS = [
+    B('shard-state-grafted-onto-the-live-source', 'chainables/transform.py',
+      "      if types.is_recoverable(data_source):\n        data_source = data_source.from_state(input_state)",
+      "      if types.is_recoverable(data_source):\n        input_state = dataclasses.replace(input_state, parent=data_source.state)\n        data_source = data_source.from_state(input_state)", 'R-C10-17'),
+    OK('shard-state-restored-through-a-local-source', 'chainables/transform.py',
+       "      if types.is_recoverable(data_source):\n        data_source = data_source.from_state(input_state)",
+       "      if types.is_recoverable(data_source):\n        source = data_source\n        data_source = source.from_state(input_state)"),
     B('revert-root-state-replayed-with-a-shard-call', 'chainables/io.py',
       "      if shard_state == ShardConfig():\n        # The state of the unsharded source itself: sharding it once more would\n        # nest every restored state one level deeper than the recorded one.\n        return result\n", '', 'R-C10-16'),
     OK('root-state-handled-first', 'chainables/io.py',
